@@ -32,6 +32,10 @@ type c21ContCase struct {
 	QConc          int             `json:"qconc"`
 	LatencyUs      int             `json:"latency_us"`
 	CloseLatencyUs int             `json:"close_latency_us"`
+	// IterLatencyUs: the MetaStore hands out candidates this slowly (a paginated
+	// store): a file is finished, and its handles are being closed, by the time
+	// the next one is retained
+	IterLatencyUs int `json:"iter_latency_us,omitempty"`
 	Queries        []c21Query      `json:"queries"`
 	Fault          *CursorFault    `json:"fault,omitempty"`
 	Procs          int             `json:"procs,omitempty"`
@@ -56,6 +60,22 @@ func genC21Contended() *rapid.Generator[c21ContCase] {
 		}
 		if chance(t, "fault", 40) {
 			c.Fault = &CursorFault{Kind: pick(t, "fkind", []string{"Read", "Read", "OpenFile", "Seek", "RClose"}), N: rapid.IntRange(0, 12).Draw(t, "fn")}
+		}
+		if chance(t, "manyfiles", 25) {
+			// several multi-block files scanned one after the other by 3-4 workers
+			// with a slow handle Close: while the pool is still closing one file's
+			// idle handles, the workers already borrow and hand back handles of the next
+			c.World = CursorWorldSpec{Files: pick(t, "mffiles", []int{4, 6}), Blocks: pick(t, "mfblocks", []int{3, 6}), Rows: pick(t, "mfrows", []int{10, 70})}
+			c.QConc = pick(t, "mfqconc", []int{2, 3, 4})
+			c.LatencyUs = pick(t, "mflat", []int{200, 1000})
+			c.CloseLatencyUs = pick(t, "mfclat", []int{3000, 6000})
+			c.IterLatencyUs = pick(t, "mfiter", []int{0, 3000, 6000, 12000})
+			c.Fault = nil
+			c.Queries = []c21Query{{Kind: "all", End: "drain"}}
+			if chance(t, "mfsecond", 40) {
+				c.Queries = append(c.Queries, c21Query{Kind: "token", End: "drain"})
+			}
+			return c
 		}
 		if chance(t, "samefile", 35) {
 			// many blocks of ONE file scanned by several workers: handles of that
@@ -100,6 +120,10 @@ func runC21ContendedOnce(c c21ContCase) (*Violation, bool, bool) {
 		case "RClose":
 			if c.CloseLatencyUs > 0 {
 				time.Sleep(time.Duration(c.CloseLatencyUs) * time.Microsecond)
+			}
+		case "IterYield":
+			if c.IterLatencyUs > 0 && ci.KindSeq > 0 {
+				time.Sleep(time.Duration(c.IterLatencyUs) * time.Microsecond)
 			}
 		}
 		if c.Fault != nil && ci.Kind == c.Fault.Kind && ci.KindSeq == c.Fault.N {
